@@ -142,6 +142,15 @@ func (ex *Exec) run() {
 			}
 		}
 	}
+	// locals of the function are visible in postconditions with the value
+	// they have at the (merged) return
+	if ex.topFrame != nil {
+		for name, sv := range ex.localEnv(ex.topFrame, ret) {
+			if _, clash := renv[name]; !clash {
+				renv[name] = sv
+			}
+		}
+	}
 	ctx := &EvalCtx{ex: ex, st: ret, old: ex.entry, env: renv, oldEnv: env, fnPos: fn.Pos()}
 	if fc != nil {
 		ctx.pkg = fc.Pkg
